@@ -112,6 +112,33 @@ def main():
                     problems.append('chunks outside the tail zone depend on the segmentation')
                 if problems:
                     failures.append({'id': f'big_m{m}M{M}P{P}', 'class': None, 'case': {'m': m, 'M': M, 'n': len(data), 'segments': [len(x) for x in segs]}, 'detail': problems})
+    # INTERLEAVED runs (two snapshots in one process, a run abandoned half way): each run's output is a function of its own bytes
+    # and parameters only - never of other runs, whether on the same adapter object or on another one
+    for (m, M) in ((8, 64), (64, 256)):
+        for share_adapter in (False, True):
+            cases += 1
+            streams = [random.Random(seed + 900 + i).randbytes(3000 + 17 * i) for i in range(3)]
+            segs = [[s_[j:j + 333] for j in range(0, len(s_), 333)] for s_ in streams]
+            alone = [list(adapters.gclmulchunker(min_length=m, max_length=M)(iter(sg), params=keys[1])) for sg in segs]
+            first = adapters.gclmulchunker(min_length=m, max_length=M)
+            gens = [(first if share_adapter else adapters.gclmulchunker(min_length=m, max_length=M))(iter(sg), params=keys[1]) for sg in segs]
+            abandoned = (first if share_adapter else adapters.gclmulchunker(min_length=m, max_length=M))(iter(segs[0]), params=keys[1])
+            next(abandoned, None)                                    # a run that is started and never finished
+            outs = [[] for _ in gens]
+            live = list(range(len(gens)))
+            while live:
+                for gi in list(live):
+                    try:
+                        outs[gi].append(next(gens[gi]))
+                    except StopIteration:
+                        live.remove(gi)
+            problems = []
+            for i in range(len(gens)):
+                if outs[i] != alone[i]:
+                    problems.append(f'stream {i}: interleaved run differs from the run alone ({len(outs[i])} vs {len(alone[i])} chunks, lossless={b"".join(outs[i]) == streams[i]})')
+            if problems:
+                failures.append({'id': f'interleaved_m{m}M{M}_{"same" if share_adapter else "separate"}_adapter', 'class': None,
+                                 'case': {'m': m, 'M': M, 'streams': [len(s_) for s_ in streams], 'one_adapter_object': share_adapter}, 'detail': problems})
     seen = set()
     uniq = []
     for f in failures:
